@@ -42,16 +42,27 @@ def static_string(facts, path):
     return None
 
 
-def sql_of(facts, body, flow, local):
+def sql_of(facts, body, flow, local, op=None):
+    """(name, text) of the statement an operand denotes: a `static`, a named `const` or a literal — directly or through locals"""
+    def of_const(c, cs):
+        if c and 'static' in c:
+            return strip_generics(c['static']), static_string(facts, strip_generics(c['static']))
+        if c and 'str' in c:
+            return (strip_generics(c['uneval']) if c.get('uneval') else 'literal@%s' % cs), c['str']
+        return None
+    if op is not None:
+        r = of_const(op_const(op), body.line)
+        if r:
+            return r
+    if local is None:
+        return None, None
     back = flow.backward([local])
     for _b, _j, s in body.assigns():
         if s['lhs']['l'] in back:
             for o in rv_operands(s['rv']):
-                c = op_const(o)
-                if c and 'static' in c:
-                    return strip_generics(c['static']), static_string(facts, strip_generics(c['static']))
-                if c and 'str' in c:
-                    return 'literal@%s' % s['cs'], c['str']
+                r = of_const(op_const(o), s['cs'])
+                if r:
+                    return r
     return None, None
 
 
@@ -67,7 +78,7 @@ def check_B1(ctx, facts):
                 continue
             flow = flow or Flow(body)
             n += 1
-            name, text = sql_of(facts, body, flow, op_local(t['args'][1]))
+            name, text = sql_of(facts, body, flow, op_local(t['args'][1]), t['args'][1])
             tup = [g for g in (t.get('gargs') or []) if g.startswith('(')]
             where = body.name.replace(SQ, '').replace('::{closure#0}', '')
             key = '%s|%s' % (where, last_seg(cname(t)))
@@ -197,7 +208,7 @@ def check_B3(ctx, facts_prod, facts_tu):
                         found.setdefault((rb.name, w.split(' ')[0]), []).append((r, w, rb, t))
                     if backend == 'sqlite' and cname(t) in SQL_CALLS and rb is body:
                         fl = fl or Flow(rb)
-                        name, text = sql_of(facts, rb, fl, op_local(t['args'][1]))
+                        name, text = sql_of(facts, rb, fl, op_local(t['args'][1]), t['args'][1])
                         if text and re.match(r'\s*(INSERT|UPDATE|DELETE|CREATE|DROP|REPLACE)\b', text, re.I):
                             found.setdefault((rb.name, 'SQL'), []).append((r, 'SQL ' + text.split()[0], rb, t))
         if not found:
@@ -401,7 +412,7 @@ def check_B9(ctx, facts):
             if cname(t) not in SQL_CALLS:
                 continue
             flow = flow or Flow(body)
-            name, text = sql_of(facts, body, flow, op_local(t['args'][1]))
+            name, text = sql_of(facts, body, flow, op_local(t['args'][1]), t['args'][1])
             if text is None:
                 continue     # B1 fails closed on this
             txt = ' '.join(text.split())
